@@ -163,4 +163,146 @@ def seqGet (interval : Nat) : Nat → Option Entry → List (Nat × Nat) → Lis
       | some e => (e.data, false) :: seqGet interval clock entry rest
       | none => (d, true) :: seqGet interval clock (some ⟨d, clock + interval⟩) rest
 
+/-! ## parameter overrides (`--set-query`, `--set-header`, `--set-cookie`, `--set-path`): which entries apply to an operation
+    (generation/overrides.py `Override.for_operation` / `_for_parameters`) and the per-phase application sites -/
+
+inductive Loc where
+  | query | headers | cookies | path
+  deriving DecidableEq, Repr
+
+def Loc.all : List Loc := [.query, .headers, .cookies, .path]
+
+/-- the `Override` dataclass: one dict per location (also the shape of what `for_operation` returns) -/
+abbrev Overrides := Loc → Dict
+/-- the four parameter containers of a `Case` (`None` or a dict) -/
+abbrev Containers := Loc → Option Dict
+
+/-- an API operation as far as overrides are concerned: path template, method, declared parameters
+    (location, name) in the iteration order of `operation.query/headers/cookies/path_parameters` -/
+structure Op where
+  path : Key
+  method : Key
+  params : List (Loc × Key)
+  deriving DecidableEq, Repr
+
+def Op.declared (op : Op) (l : Loc) : List Key :=
+  (op.params.filter fun p => p.1 == l).map fun p => p.2
+
+/-- `_for_parameters(overridden, defined)`: `for param in defined: if param.name in overridden: output[name] = …` -/
+def fpStep (overridden : Dict) (out : Dict) (n : Key) : Dict :=
+  match dlookup n overridden with
+  | some v => dset out n v
+  | none => out
+
+def forParameters (overridden : Dict) (defined : List Key) : Dict := defined.foldl (fpStep overridden) []
+
+/-- `Override.for_operation(operation)` -/
+def forOperation (o : Overrides) (op : Op) : Overrides := fun l => forParameters (o l) (op.declared l)
+
+/-! ### how a request-building site gets at `for_operation`: per call (the code as found) or through a memo table -/
+
+/-- `perCall`: `config.override.for_operation(case.operation)` is evaluated for every request (as found, all sites).
+    `memo key`: the class of "resolve once" rewrites — a dict indexed by `key operation`, filled on first use. -/
+inductive Resolver (K : Type) where
+  | perCall
+  | memo (key : Op → K)
+
+def memoGet {K : Type} [DecidableEq K] (k : K) : List (K × Overrides) → Option Overrides
+  | [] => none
+  | (k', a) :: r => if k = k' then some a else memoGet k r
+
+/-- one resolution: the entries used for `op` and the memo table afterwards -/
+def resolve {K : Type} [DecidableEq K] (R : Resolver K) (o : Overrides) (cache : List (K × Overrides)) (op : Op) :
+    Overrides × List (K × Overrides) :=
+  match R with
+  | .perCall => (forOperation o op, cache)
+  | .memo key =>
+    match memoGet (key op) cache with
+    | some a => (a, cache)
+    | none => (forOperation o op, (key op, forOperation o op) :: cache)
+
+/-- a site `f` (what it does with the resolved entries and the per-request data) run over a sequence of requests -/
+def siteRun {K α β : Type} [DecidableEq K] (R : Resolver K) (o : Overrides) (f : Overrides → α → β) :
+    List (K × Overrides) → List (Op × α) → List β
+  | _, [] => []
+  | c, (op, a) :: rest => f (resolve R o c op).1 a :: siteRun R o f (resolve R o c op).2 rest
+
+/-! ### the sites -/
+
+/-- `container = getattr(case, location) or {}; container.update(entry)` — `case.headers` is a CaseInsensitiveDict
+    (`make_case` wraps it) unless it is `None`/empty, in which case a plain `{}` takes its place -/
+def containerUpdate (l : Loc) (c : Option Dict) (entry : Dict) : Dict :=
+  match c with
+  | none => dupdate [] entry
+  | some d =>
+    if d.isEmpty then dupdate [] entry
+    else match l with
+      | .headers => updateCI d entry
+      | _ => dupdate d entry
+
+/-- stateful `before_call`, given the resolved entries: locations with an empty entry are left alone -/
+def beforeCallWith (applied : Overrides) (case : Containers) : Containers := fun l =>
+  if (applied l).isEmpty then case l else some (containerUpdate l (case l) (applied l))
+
+def beforeCall (o : Overrides) (op : Op) (case : Containers) : Containers := beforeCallWith (forOperation o op) case
+
+/-- the stateful phase over a sequence of steps (operation, generated / link-derived case data) -/
+def statefulRun {K : Type} [DecidableEq K] (R : Resolver K) (o : Overrides) (steps : List (Op × Containers)) :
+    List Containers := siteRun R o beforeCallWith [] steps
+
+/-- defect site FC14a: `get_strategy_kwargs` assigns `kwargs["headers"]` from the configured headers *after* the
+    overrides (`.asFound`: the `--set-header` entry is replaced; `.repaired`: merged) -/
+inductive Variant where
+  | asFound | repaired
+  deriving DecidableEq, Repr
+
+/-- unit phases `get_strategy_kwargs`, given the resolved entries and `config.network.headers` -/
+def strategyKwargsWith (V : Variant) (applied : Overrides) (net : Dict) : Containers := fun l =>
+  let ov := if (applied l).isEmpty then none else some (applied l)
+  match l with
+  | .headers =>
+    if net.isEmpty then ov
+    else match V with
+      | .asFound => some (strategyHeaders net)
+      | .repaired => some (dupdate (strategyHeaders net) (applied l))
+  | _ => ov
+
+/-- examples phase `merge_explicit`: `{**existing, **value}` per container, `value` where there is no example -/
+def examplesMergeWith (kwargs : Containers) (ex : Containers) : Containers := fun l =>
+  match kwargs l with
+  | none => ex l
+  | some v =>
+    match ex l with
+    | some e => some (dupdate e v)
+    | none => some v
+
+/-- coverage phase `add_coverage`: `setattr(case, name, value)` for an absent container, else `container.update(value)` -/
+def coverageWith (kwargs : Containers) (case : Containers) : Containers := fun l =>
+  match kwargs l with
+  | none => case l
+  | some v =>
+    match case l with
+    | none => some v
+    | some c => some (match l with | .headers => updateCI c v | _ => dupdate c v)
+
+/-- `get_parameters_value`: an absent/empty explicit value means "generate everything" -/
+def explicitMerge (explicit generated : Option Dict) : Option Dict :=
+  match explicit with
+  | none => generated
+  | some e => if e.isEmpty then generated else some (mergeExplicit e generated)
+
+inductive Phase where
+  | examples | coverage | fuzzing | stateful
+  deriving DecidableEq, Repr
+
+/-- the containers of one request of a phase, given the resolved entries, the configured headers, the data produced
+    by the generators / coverage templates / links (`gen`) and, for the examples phase, the schema examples (`ex`) -/
+def phaseContainers (V : Variant) (ph : Phase) (net : Dict) (applied : Overrides) (d : Containers × Containers) :
+    Containers :=
+  match ph with
+  | .fuzzing => fun l => explicitMerge (strategyKwargsWith V applied net l) (d.1 l)
+  | .examples => fun l => explicitMerge (examplesMergeWith (strategyKwargsWith V applied net) d.2 l) (d.1 l)
+  | .coverage => coverageWith (strategyKwargsWith V applied net) d.1
+  | .stateful => beforeCallWith applied d.1
+
 end SV.Model.C14
